@@ -37,7 +37,7 @@ pub fn mk_coin(version_id: u8, aux: Option<u32>) -> CoinType {
     CoinType { name: String::new(), magic: 0, version_id, genesis_hash: sha256d::Hash::from_byte_array([0; 32]), aux_pow_activation_version: aux, default_folder: std::path::PathBuf::new() }
 }
 
-fn put_rec(i: usize, height: u8, file: u8, pos: u8) {
+pub fn put_rec(i: usize, height: u8, file: u8, pos: u8) {
     unsafe {
         ldb::KEYS.v[i][0] = b'b';
         ldb::KEYS.v[i][1] = i as u8 + 1;
@@ -47,6 +47,8 @@ fn put_rec(i: usize, height: u8, file: u8, pos: u8) {
         ldb::VLEN.v[i] = 6;
     }
 }
+
+pub fn set_n_rec(n: usize) { unsafe { ldb::N_REC.v = n; } }
 
 macro_rules! index_new {
     ($name:ident, $t:expr, [$f0:expr, $f1:expr, $f2:expr, $f3:expr]) => {
@@ -65,7 +67,7 @@ macro_rules! index_new {
                 put_rec(i, i as u8, file[i], pos[i]);
                 i += 1;
             }
-            unsafe { ldb::N_REC.v = T + 1; }
+            set_n_rec(T + 1);
             let start: u64 = kani::any();
             let has_end: bool = kani::any();
             let e: u64 = kani::any();
